@@ -5,6 +5,7 @@ CONSTANTS
   SepLens <- SL2
   WidthRule = "ignore_null"
   ExpandRule = "atleast1"
+  CsvCtx = "own"
 INIT Init
 NEXT Next
 INVARIANTS OffsetsInv
